@@ -217,7 +217,7 @@ func ZZC15Keys() {
 // ZZC15KeyTypes: a key shortcut whose type is an or shortcut over string, integer and object types,
 // in every order: whenever Check accepts the schema, the example is well formed and validates.
 func ZZC15KeyTypes() {
-	names := []string{"@s", "@i", "@o", "@s2"}
+	names := []string{"@s", "@i", "@o", "@s2", "@al", "@al2"}
 	n := v.Choose(1, 3)
 	body := ""
 	for i := 0; i < n; i++ {
@@ -238,6 +238,19 @@ func ZZC15KeyTypes() {
 	v.Assert(s.AddType("@s2", jschema.New("@s2", `"de" // {minLength: 2}`)) == nil, "C15/addtype-failed")
 	v.Assert(s.AddType("@i", jschema.New("@i", `12`)) == nil, "C15/addtype-failed")
 	v.Assert(s.AddType("@o", jschema.New("@o", `{"a": 1}`)) == nil, "C15/addtype-failed")
+	// aliases: the same string types are reached along a second path
+	v.Assert(s.AddType("@al", jschema.New("@al", `@s`)) == nil, "C15/addtype-failed")
+	v.Assert(s.AddType("@al2", jschema.New("@al2", `@s2 | @s`)) == nil, "C15/addtype-failed")
+	// all-string key types are legal however often a member is reached
+	allStr := true
+	for i := 0; i+1 < len(body); i++ {
+		if body[i] == '@' && (body[i+1] == 'i' || body[i+1] == 'o') {
+			allStr = false
+		}
+	}
+	if allStr {
+		v.Assert(s.Check() == nil, "C15/string-key-type-rejected")
+	}
 	if s.Check() != nil {
 		v.Reach("C15/keytypes-rejected")
 		return
